@@ -316,36 +316,71 @@ func runC15(c *an.Ctx) {
 	// ---- R8 bytes are examined as bytes: the byte-oriented operators (byte ranges, URL encoding, UTF-8 validation,
 	// pm, the string operators) index their input; ranging over a string yields runes, and byte(r) of a rune
 	// produced by such a range keeps the low byte of the code point, which is not a byte of the input.
-	nConv := 0
+	nConv := runeToByte(c, "R8", "internal/operators", "internal/transformations", "internal/strings", "internal/url")
+	c.OkTrivial("R8", "rune-to-byte conversions of string-range values in the byte-oriented packages", token.NoPos, fmt.Sprintf("%d sites", nConv))
+
+	// the ASCII boundary: a byte is ASCII iff it is < utf8.RuneSelf (0x80).  Tests against that constant use < or >=;
+	// a strict > (or <=) puts 0x80 itself on the wrong side.
+	nB := 0
 	for _, fn := range c.P.ModFuncs {
-		if rp := relPkg(fn); rp != "internal/operators" && rp != "internal/transformations" && rp != "internal/strings" && rp != "internal/url" {
+		if rp := relPkg(fn); rp != "internal/operators" && rp != "internal/transformations" && rp != "internal/strings" {
 			continue
 		}
 		an.Instrs(fn, func(in ssa.Instruction) {
-			cv, ok := in.(*ssa.Convert)
+			b, ok := in.(*ssa.BinOp)
 			if !ok {
 				return
 			}
-			bt, ok := cv.Type().Underlying().(*types.Basic)
-			if !ok || bt.Kind() != types.Uint8 {
+			ky, isY := an.ConstInt(b.Y)
+			kx, isX := an.ConstInt(b.X)
+			op := b.Op.String()
+			if isX && !isY { // constant on the left: mirror
+				ky, isY = kx, true
+				op = map[string]string{"<": ">", ">": "<", "<=": ">=", ">=": "<="}[op]
+			}
+			if !isY || ky != 128 {
 				return
 			}
-			ex, ok := cv.X.(*ssa.Extract)
-			if !ok || ex.Index != 2 {
-				return
+			switch op {
+			case "<", ">=":
+				nB++
+			case ">", "<=":
+				nB++
+				c.Bad("R8", "ASCII boundary test in "+an.RelName(fn), in.Pos(), "a value is compared with 0x80 (utf8.RuneSelf) using "+b.Op.String()+": the byte 0x80 itself lands on the ASCII side, so a stray 0x80 is treated as plain ASCII (valid UTF-8, nothing to decode)")
 			}
-			nx, ok := ex.Tuple.(*ssa.Next)
-			if !ok || !nx.IsString {
-				return
-			}
-			nConv++
-			lo, hi, _ := an.FactsAt(in).Range(an.Expr(cv.X))
-			_ = lo
-			c.Check(hi <= 255, "R8", "rune from a string range converted to byte in "+an.RelName(fn), in.Pos(), "guarded to 0..255",
-				"a rune obtained by ranging over the input string is converted to a byte: for multi-byte characters this is the low byte of the code point, not a byte of the input, so byte-level predicates (allowed byte ranges, hex digits ...) are decided on values the input does not contain")
 		})
 	}
-	c.OkTrivial("R8", "rune-to-byte conversions of string-range values in the byte-oriented packages", token.NoPos, fmt.Sprintf("%d sites", nConv))
+	c.OkTrivial("R8", "comparisons with utf8.RuneSelf in the byte-oriented packages", token.NoPos, fmt.Sprintf("%d sites", nB))
+	// @pmFromFile: the line that is tested (blank? comment?) is the line that becomes a phrase — trimmed once, before
+	// the tests (otherwise a whitespace-only line becomes the empty phrase, which matches everything)
+	if pf := c.FnOpt("internal/operators.newPMFromFile"); pf != nil {
+		var appended, tested []string
+		an.Instrs(pf, func(in ssa.Instruction) {
+			if an.IsCallToFunc(in, "strings", "ToLower") {
+				appended = append(appended, tempName.ReplaceAllString(an.Expr(an.CallOf(in).Args[0]), ""))
+			}
+			if an.IsBuiltinCall(in, "len") {
+				a := an.CallOf(in).Args[0]
+				if isStringType(a.Type()) {
+					tested = append(tested, tempName.ReplaceAllString(an.Expr(a), ""))
+				}
+			}
+		})
+		ok := len(appended) >= 1 && len(tested) >= 1
+		for _, a := range appended {
+			found := false
+			for _, t := range tested {
+				if a == t {
+					found = true
+				}
+			}
+			if !found || !strings.Contains(a, "TrimSpace(") {
+				ok = false
+			}
+		}
+		c.Check(ok, "R5", "@pmFromFile tests and stores the same trimmed line", pf.Pos(), strings.Join(appended, ","),
+			"the phrase stored ("+strings.Join(appended, ",")+") is not the value whose emptiness was tested ("+strings.Join(tested, ",")+"): a line of blanks passes the blank-line test untrimmed and is then stored as the empty phrase, which occurs in every input")
+	}
 
 	// ---- R6 @ipMatch masks
 	if im := c.Fn("R6", "internal/operators.newIPMatch"); im != nil {
@@ -476,4 +511,77 @@ func c15NumericSiblings(c *an.Ctx) {
 		c.Check(s.l+" | "+s.r == ref, "R7", "@"+s.name+" compares the same two parsed numbers as its siblings", s.pos, ref,
 			"@"+s.name+" compares "+s.l+" with "+s.r+" while its siblings compare "+ref+": for inputs on which the two ways of parsing differ (non-numeric text, numbers outside the int range) the comparison operators contradict each other")
 	}
+}
+
+// runeToByte: every conversion of a rune (int32) to a byte in the given packages is bounded to 0..255 by a
+// dominating guard.  Returns the number of conversion sites.
+func runeToByte(c *an.Ctx, rule string, pkgs ...string) int {
+	n := 0
+	seen := map[string]int{}
+	for _, fn := range c.P.ModFuncs {
+		rp := relPkg(fn)
+		in := false
+		for _, p := range pkgs {
+			if rp == p {
+				in = true
+			}
+		}
+		if !in {
+			continue
+		}
+		an.Instrs(fn, func(ins ssa.Instruction) {
+			cv, ok := ins.(*ssa.Convert)
+			if !ok {
+				return
+			}
+			db, ok := cv.Type().Underlying().(*types.Basic)
+			if !ok || db.Kind() != types.Uint8 {
+				return
+			}
+			sb, ok := cv.X.Type().Underlying().(*types.Basic)
+			if !ok || sb.Kind() != types.Int32 {
+				return
+			}
+			if _, isC := cv.X.(*ssa.Const); isC {
+				return
+			}
+			n++
+			k := "rune converted to byte in " + an.RelName(fn)
+			seen[k]++
+			key := k
+			if seen[k] > 1 {
+				key += fmt.Sprintf("#%d", seen[k])
+			}
+			e := an.Expr(cv.X)
+			f := an.FactsAt(ins)
+			_, hi, _ := f.Range(e)
+			okB := hi <= 255 && exactAtom(f, e)
+			// arithmetic that keeps the value small: (r & 0xff), r - c under a range guard
+			if b, isB := cv.X.(*ssa.BinOp); isB && b.Op.String() == "&" {
+				if k, isK := an.ConstInt(b.Y); isK && k <= 255 {
+					okB = true
+				}
+			}
+			if why, ok := runeToByteAllow[an.RelName(fn)]; ok && !okB {
+				c.Note(rule, key, ins.Pos(), "not decided mechanically; manual argument: "+why)
+				return
+			}
+			c.Check(okB, rule, key, ins.Pos(), "guarded to 0..255",
+				"a rune is narrowed to a byte with no guard keeping it below 256: for non-ASCII characters the result is the low byte of the code point, not a byte of the text (a literal such as \u00f1 becomes the single byte 0xF1, a multi-byte input character is judged by a byte it does not contain)")
+		})
+	}
+	return n
+}
+
+func exactAtom(f an.Facts, e string) bool {
+	for _, a := range f {
+		if a.L == e {
+			return true
+		}
+	}
+	return false
+}
+
+var runeToByteAllow = map[string]string{
+	"internal/operators.matchesArbitraryBytes": "the rune comes from strconv.UnquoteChar on a \\xNN escape with multibyte == false (tested on the line above), which yields a single byte value",
 }
